@@ -332,3 +332,61 @@ def compare(ref, res):
     if not (rk & {"DEADLOCK", "ASSERT"}) and res.rc not in (0, None):
         out.append(("verdict", "rc%s-but-no-failure" % res.rc, "exit status %s although no failure is reachable" % res.rc))
     return out
+
+
+def refclass(ref):
+    """Which failures are reachable according to the exploration without reduction: part of every violation key."""
+    k = set(r.kind for r in ref.records)
+    c = [n for n, kk in (("deadlock", "DEADLOCK"), ("assert", "ASSERT")) if kk in k]
+    return "+".join(c) or "clean"
+
+
+def cut_short(res):
+    """The exploration stopped at its first assertion failure although max-errors:-1 was given: the BeFS explorer
+    does not catch the warning raised by a failing MC_assert (DFS does, through a soft-locked state).  The reported
+    failure is real; the outcome set is then a subset by construction and is not held against the reduction."""
+    return res.rc == 1 and any(r.kind == "ASSERT" for r in res.records) and "PROPERTY NOT VALID" in res.log
+
+
+def default_mode_rules(ref, res):
+    """Rules of a run with the default max-errors:0 (stop at the first error, then search the critical transition).
+    Returns [(rule, detail, text)]."""
+    out = []
+    rk = set(r.kind for r in ref.records)
+    failing = bool(rk & {"DEADLOCK", "ASSERT"})
+    if res.rc not in (0, 1, 2):
+        out.append(("abort", "rc%s:%s" % (res.rc, slug(res.aborted)), "simgrid-mc ended with status %s: %s" % (res.rc, res.aborted)))
+        return out
+    if failing and res.rc == 0:
+        out.append(("default", "rc0-but-failure-reachable", "exit status 0 (no error found) although a %s is reachable"
+                    % " and a ".join(sorted(k.lower() for k in rk & {"DEADLOCK", "ASSERT"}))))
+    if not failing and res.rc != 0:
+        out.append(("default", "rc%d-but-no-failure" % res.rc, "exit status %d although no failure is reachable" % res.rc))
+    if res.rc == 1 and failing and "ASSERT" not in rk:
+        out.append(("default", "rc1-but-no-assert-reachable", "a property violation is reported but no MC_assert can fail"))
+    if res.rc == 2 and failing and "DEADLOCK" not in rk:
+        out.append(("default", "rc2-but-no-deadlock-reachable", "a deadlock is reported but none is reachable"))
+    return out
+
+
+class Runner:
+    """Runs configurations on one program (spec file written once) inside a scratch directory."""
+
+    def __init__(self, vm, mc, workdir, name, spec_text):
+        self.vm, self.mc, self.workdir, self.name = vm, mc, workdir, name
+        self.spec_path = os.path.join(workdir, name + ".spec")
+        with open(self.spec_path, "w") as f:
+            f.write(spec_text)
+
+    def run(self, cfg, timeout, max_errors=-1, extra=(), mutate=None):
+        return run_mc(self.vm, self.mc, self.spec_path, self.workdir, cfg, max_errors=max_errors, timeout=timeout,
+                      extra=extra, mutate=mutate)
+
+    def run_confirmed(self, cfg, timeout, max_errors=-1, extra=(), mutate=None):
+        """Watchdog discipline: a first timeout is retried once with three times the budget.
+        Returns (result, hang) where hang is True only when both runs were killed by the watchdog."""
+        r = self.run(cfg, timeout, max_errors, extra, mutate)
+        if not r.timed_out:
+            return r, False
+        r2 = self.run(cfg, 3 * timeout, max_errors, extra, mutate)
+        return r2, r2.timed_out
